@@ -1776,6 +1776,11 @@ func (e *engine) emit(kind string, builtClause bool, ctxOps bool) emit.Case {
 	if e.ctxSig != "" {
 		sig = e.ctxSig
 	}
+	e.n.w.mu.Lock()
+	if len(e.n.w.outOfOrd) > 0 {
+		sig = "chain-AcceptBlock-called-out-of-accept-order"
+	}
+	e.n.w.mu.Unlock()
 	if strings.HasPrefix(kind, "sync") {
 		sig = "handover-violated"
 		if e.midReject && e.finishErr == 1 {
